@@ -157,6 +157,11 @@ func C19(blk *hist.Block) []Finding {
 			if !isActive(blk.Prev, who) && !isActive(blk.Cur, who) {
 				out = append(out, Finding{"C19", "C19/non-active/ALLEGATION_VOTE", fmt.Sprintf("block %d: allegation vote by %s, which is not an active validator before or after the block", blk.H, who)})
 			}
+			// (a validator found guilty and not released has dropped out, whatever its status flag still says
+			// until the election catches up)
+			if f := freezeOf(blk.Prev, who); f != nil && Frozen(blk.Prev, who) && Frozen(blk.Cur, who) && f.Status == 2 {
+				out = append(out, Finding{"C19", "C19/frozen/ALLEGATION_VOTE", fmt.Sprintf("block %d: allegation vote by %s succeeded although it was found guilty and has not been released", blk.H, who)})
+			}
 			ch, _ := pField(p, "Choice").(float64)
 			id := PString(p, "RequestID")
 			newVotes[id] = append(newVotes[id], vote{who, int(ch)})
